@@ -285,6 +285,8 @@ class C08(PropertyCheck):
         "QipVerif.C08.args_one_sound",
         "QipVerif.C08.args_sound",
         "QipVerif.C08.args_cyclic",
+        "QipVerif.C08.history_get_current",
+        "QipVerif.C08.elem_get_sound",
         "QipVerif.C08.embed_apply",
         "QipVerif.C08.embed_mul",
         "QipVerif.C08.embed_one",
@@ -300,7 +302,11 @@ class C08(PropertyCheck):
                   "assumed (tensor_digits, permute_digits), and the flat model equals the digit-tuple model used by the other "
                   "properties (flat_eq_digits). new_order is a permutation; validation accepts exactly well-formed requests; "
                   "every accepted call in any argument form (N=, dims=None, targets None/int/list, cyclic_permutation) is such a "
-                  "well-formed placement on dims[:N] (args_*). Tie: the whole matrix is compared position by position, "
+                  "well-formed placement on dims[:N] (args_*); the objects that embed on demand (_EvoElement behind Pulse / "
+                  "Drift) answer from their current fields only, after any history of re-assignments and requests "
+                  "(history_get_current, elem_get_sound). Tie: histories on one real object (re-targeting through the public "
+                  "setters, replacing the operator, changing dims) at every observation point (Pulse.get_ideal_qobj / "
+                  "get_ideal_qobjevo / get_noisy_qobjevo, Drift, _EvoElement, Gate.get_qobj) are compared entry by entry; the whole matrix is compared position by position, "
                   "exhaustively for all dims in {2,3,4}^N, N<=3 (quick) / N<=4 (thorough) and all target tuples, sampled beyond; "
                   "the transcribed index conventions are compared with QuTiP's and numpy's primitives exhaustively on small shapes.")
     level_note = ("Trusted: Lean kernel (axioms propext, Classical.choice, Quot.sound); that QuTiP's compiled kron and "
@@ -317,13 +323,17 @@ class C08(PropertyCheck):
         "qutip.core.data.permute.dimensions (Dense, CSR), Qobj.permute, qutip.core.data.kron, qutip.tensor and numpy "
         "(reshape/transpose, kron) for all structures in {2,3,4}^n, n<=3 (4 thorough) and all orders",
         "data-layer conversions of QuTiP (oper.to(dtype), dispatch of kron/permute between CSR/Dense/Dia) preserve the matrix",
+        "the composition of the observation points from element operators as written in the harness (Pulse.get_noisy_qobjevo = "
+        "ideal + coherent noise and the Lindblad operators, Drift = sum of its Hamiltonians, QobjEvo evaluated at t=0 with "
+        "coeff=True; Gate.get_qobj's call of expand_operator read from the tree with ast)",
         "py/props/c08.py (harness, canonicalisation of exceptions to {count,range,dims,index,permute,square,nosize})",
     ]
     assumptions = ["linearity of expand_operator in the operator (additionally sampled with matrix units and random dense operators)",
                    "dimensions are positive (QuTiP refuses zero dimensions when the Qobj is built)"]
     rule = ("case = (dims over {2,3,4}, injective target tuple, operator kind, dtype, whole matrix or sampled rows) for the "
             "flat-index and the digit-tuple model; (structure, order) / (D, rest) for the index conventions; (N, dims, targets "
-            "form, operator dims, cyclic) for the argument forms; non-trivial = at least one non-target subsystem or a "
+            "form, operator dims, cyclic) for the argument forms; (entry point, elements, sequence of assignments and "
+            "requests) for histories on one object; non-trivial = at least one non-target subsystem or a "
             "non-identity target order / a non-identity order; malformed and validation streams counted separately")
 
     # ---------------------------------------------------------------------------------
